@@ -113,6 +113,7 @@ type spkOp struct {
 	Cluster *vw.ClusterSpec `json:"cluster,omitempty"`
 	Alive   []bool          `json:"alive,omitempty"`
 	Pick    int             `json:"pick,omitempty"`
+	Fail    []bool          `json:"fail,omitempty"`   // failreads: outcomes of the next EndpointSlice lists (true = the read fails)
 	Narrow  int             `json:"narrow,omitempty"` // svc-ips: 1 = keep only the first of the current addresses, 2 = keep only the second, 3 = keep the first and replace the second
 }
 
@@ -365,6 +366,10 @@ func genSpkCase(rt *rapid.T) spkCase {
 		case k <= 20:
 			op.Kind = "step"
 			op.Pick = rapid.IntRange(0, 7).Draw(rt, "pick")
+		case k == 25:
+			// a transient API read failure: the next lists of EndpointSlices fail per the pattern
+			op.Kind = "failreads"
+			op.Fail = rapid.SliceOfN(rapid.Bool(), 1, 3).Draw(rt, "failReads")
 		default:
 			op.Kind = "settle"
 		}
@@ -536,17 +541,19 @@ func (s *spkSim) snapshot(keys []string) spkSnapshot {
 // ---- the run ---------------------------------------------------------------------
 
 type spkRun struct {
-	c     spkCase
-	tr    *vw.Trace
-	w     *vw.World
-	sl    *vfSpeakerList
-	cl    vw.ClusterSpec
-	sim   *spkSim
-	svcs  []*spkSvc // live services in creation order
-	ever  map[string]bool
-	alive []bool
-	j05   bool
-	j09   bool
+	c            spkCase
+	tr           *vw.Trace
+	w            *vw.World
+	sl           *vfSpeakerList
+	cl           vw.ClusterSpec
+	sim          *spkSim
+	svcs         []*spkSvc // live services in creation order
+	ever         map[string]bool
+	alive        []bool
+	j05          bool
+	j09          bool
+	freshRunning bool   // the reference speakers are being fed: no injected faults
+	sliceFail    []bool // outcomes of the next EndpointSlice lists of the speaker under test
 }
 
 func (r *spkRun) setMembers(alive []bool) {
@@ -795,6 +802,8 @@ func (r *spkRun) atQuiescence(label string) *vw.Violation {
 		}
 	}
 	if r.j09 {
+		r.freshRunning = true
+		defer func() { r.freshRunning = false }()
 		for variant := 0; variant < 2; variant++ {
 			f := newSpkSim(r.w, r.sl, r.c.Ignore)
 			var order []string
@@ -886,6 +895,17 @@ func runSpk(c spkCase, tr *vw.Trace, j05, j09 bool, extra ...string) *vw.Violati
 	r.setMembers(c.Alive)
 	r.sim = newSpkSim(r.w, r.sl, c.Ignore)
 	r.sim.current = func() vw.ClusterSpec { return r.cl }
+	r.w.ServiceReadFault = func(kind string) error {
+		if kind != "slices" || len(r.sliceFail) == 0 || r.freshRunning {
+			return nil
+		}
+		f := r.sliceFail[0]
+		r.sliceFail = r.sliceFail[1:]
+		if f {
+			return fmt.Errorf("verif: injected read failure")
+		}
+		return nil
+	}
 	r.sim.enqueue("config")
 	for _, n := range r.cl.Nodes {
 		r.sim.enqueue("node:" + n.Name)
@@ -1019,6 +1039,9 @@ func runSpk(c spkCase, tr *vw.Trace, j05, j09 bool, extra ...string) *vw.Violati
 			if len(r.sim.pending) > 0 {
 				r.sim.process(op.Pick % len(r.sim.pending))
 			}
+		case "failreads":
+			r.sliceFail = append(r.sliceFail, op.Fail...)
+			tr.Class("endpoint-slice-reads-failing")
 		case "settle":
 			if v := r.sim.settle(); v != nil {
 				return v
@@ -1090,8 +1113,8 @@ func TestVerifSpkWitness(t *testing.T) {
 
 // C10 and C12 on stateful speakers (the decisions must also hold after histories, not only as pure functions).
 func TestVerifC10Spk(t *testing.T) {
-	vw.Run(t, vw.Options{Property: "C10", Engine: "speaker", Rule: spkRule + "; at every quiescence routes for a service are present on the sessions iff the closed-form eligibility of the statement holds for this node; non-trivial as C05", Assumptions: spkAssumptions},
-		genSpkCase, func(c spkCase, tr *vw.Trace) *vw.Violation { return runSpk(c, tr, true, false) })
+	vw.Run(t, vw.Options{Property: "C10", Engine: "speaker", Rule: spkRule + "; at every quiescence routes for a service are present on the sessions iff the closed-form eligibility of the statement holds for this node (closed form over the configuration the speaker accepted), and equal those of freshly started speakers fed the final store; non-trivial as C05", Assumptions: spkAssumptions},
+		genSpkCase, func(c spkCase, tr *vw.Trace) *vw.Violation { return runSpk(c, tr, true, true) })
 }
 
 func TestVerifC12Spk(t *testing.T) {
